@@ -437,6 +437,52 @@ theorem C05_fresh_ktensor_more (d : α) (st : Store α) (ops : List View) (p : P
     pureFresh_sem d st ops _ hv (chk_ktensor_tolist_mode p ops (by simpa using hk)),
     pureFresh_sem d st ops _ hv (chk_ktensor_mttkrp p ops)⟩
 
+/-! ### parameter corner cases: nothing to compute, still a copy -/
+
+/-- Operations whose general case computes new arrays, in the corner cases where there is nothing
+to compute and the result carries the operand's own entries – for every flag of the entries, i.e.
+the corner case AND the general case: `tensor.ttv` (flag "none": an empty mode selection, `dims=[]`
+or every mode excluded; "scalar"; general), `tensor.symmetrize` (flag "same": every group is
+already symmetric; averaging; version 1 with its in-place maximum on the result's own array),
+`tensor.ttsv` (flag "none": `skip_dim` is the last mode, nothing is multiplied; results of 0, 1, 2
+and more modes), `khatrirao` (`p.n = 1`: a single matrix; several): the operands are unchanged and
+no returned array shares a cell with an operand. -/
+theorem C05_fresh_corner_cases (d : α) (st : Store α) (ops : List View) (p : Params)
+    (hv : ValidOps st ops) :
+    PureFreshSem d st ops (tensor_ttv p ops) ∧ PureFreshSem d st ops (tensor_symmetrize p ops) ∧
+    PureFreshSem d st ops (tensor_ttsv p ops) ∧ PureFreshSem d st ops (func_khatrirao p ops) :=
+  ⟨pureFresh_sem d st ops _ hv (chk_tensor_ttv p ops), pureFresh_sem d st ops _ hv (chk_tensor_symmetrize p ops),
+   pureFresh_sem d st ops _ hv (chk_tensor_ttsv p ops), pureFresh_sem d st ops _ hv (chk_func_khatrirao p ops)⟩
+
+/-- Why these branches copy: on F-ordered 2×3 data, the same programs WITHOUT their first copy –
+`ttv` with no mode selected (identity transposition, no-copy constructor), `symmetrize` of a
+symmetric tensor (`to_memory_order`, no-copy constructor), `khatrirao` of one matrix (F-reshape
+to the same shape) – hand out the operand's own cells; the table's programs do not. -/
+theorem C05_corner_cases_need_copy_example :
+    let v : View := ⟨0, 0, [2, 3], [1, 2]⟩
+    let st : Store Int := [bufferFor 0 v]
+    (outcome 0 st [v] ([.transpose 0 [0, 1]] ++ tensorCtor 1 2 [2, 3] false) [3]).share = [(0, 0)] ∧
+    (outcome 0 st [v] ([.asF 0] ++ tensorCtor 1 2 [2, 3] false) [3]).share = [(0, 0)] ∧
+    (outcome 0 st [v] [.reshapeF 0 [2, 3]] [1]).share = [(0, 0)] ∧
+    (outcome 0 st [v] (tensor_ttv { perm := [0, 1], shape := [2, 3], flag := "none" } [v]).prog [6]).share = [] ∧
+    (outcome 0 st [v] (tensor_symmetrize { shape := [2, 3], flag := "same" } [v]).prog [6]).share = [] ∧
+    (outcome 0 st [v] (tensor_ttsv { shape := [2, 3], k := 2, flag := "none" } [v]).prog [5]).share = [] ∧
+    (outcome 0 st [v] (func_khatrirao { n := 1, shape := [2, 3] } [v]).prog [4]).share = [] := by decide
+
+/-- `ttensor.ttv` and `sumtensor.ttv` with an EMPTY mode selection call `tensor.ttv` in its
+"none" case on the dense core / dense part: the composite entries cover it (their preconditions
+hold with `p.dims = []`), so the new Tucker tensor / the new parts share nothing with the
+receiver. -/
+theorem C05_fresh_empty_selection_composites (d : α) (st : Store α) (ops : List View) (p : Params)
+    (hv : ValidOps st ops) (hd : p.dims = []) (hp : p.perm = []) :
+    ((p.k = 1 ∨ p.k = 2) → p.k + p.n ≤ ops.length → PureFreshSem d st ops (ttensor_ttv p ops)) ∧
+    (partTotal p.n p.kinds ≤ ops.length → PureFreshSem d st ops (sumtensor_ttv p ops)) := by
+  refine ⟨fun hk hb => ?_, fun hb => ?_⟩
+  · refine pureFresh_sem d st ops _ hv (chk_ttensor_ttv p ops ?_)
+    have hk' : (p.k == 1 || p.k == 2) = true := by rcases hk with h | h <;> simp [h]
+    simp [ttPre, regsBelow, hp, hk', hb]
+  · exact pureFresh_sem d st ops _ hv (chk_sumtensor_ttv p ops (by simp [sumPre, hd]; exact hb))
+
 /-! ### when is a NumPy call a view? -/
 
 /-- For an F-ordered array without singleton or empty modes, `np.transpose(a, order)` is
